@@ -154,6 +154,22 @@ pub fn run(seed: u64, n: usize, extra: &[String]) -> String {
             };
             let old = mk(&mut rng);
             let new = if rng.chance(1, 5) { old.clone() } else { mk(&mut rng) };
+            // a huge single hunk (the tracker has a separate path for those) whose two sides differ in ONE character that shares
+            // its leading or trailing UTF-8 bytes with its replacement: 中 / 丮 (E4 B8 AD / AE), é / è, 🙂 / 🙃
+            let (old, new) = if rng.chance(1, 2500) && !no_large {
+                let units = ["中", "é", "🙂", "a", "b "];
+                let count = 70_000 + rng.below(40_000);
+                let parts: Vec<&str> = (0..count).map(|_| *rng.pick(&units[..])).collect();
+                let k = rng.below(count);
+                let sib = match parts[k] { "中" => "丮", "é" => "è", "🙂" => "🙃", "a" => "c", _ => "d " };
+                let o = parts.concat();
+                let mut p2 = parts.clone();
+                p2[k] = sib;
+                *counters.entry("huge_single_hunk_pairs").or_insert(0) += 1;
+                (o, p2.concat())
+            } else {
+                (old, new)
+            };
             let mut prior = Vec::new();
             for _ in 0..rng.below(6) {
                 let a = rng.below(old.len() + 3);
